@@ -20,7 +20,10 @@ import random
 import types
 import typing
 
+import re
+
 MARKERS = ("_type", "_bytes", "_bytesio")
+_ADDR = re.compile(r"0x[0-9a-fA-F]+")
 _OKCHARS = set("abcdefghijklmnopqrstuvwxyzABCDEFGHIJKLMNOPQRSTUVWXYZ0123456789 _-.,:;/+=()@")
 
 
@@ -374,11 +377,17 @@ def _cmp_methods(x, y):
                                                         "get_full_text")):
         return "n/a"
 
+    def addr(s):
+        # hand-built instances may hold objects in Any-typed cells whose str()/repr() shows a memory
+        # address (<_io.BytesIO object at 0x..>): identity, not content
+        return _ADDR.sub("0x", s)
+
     def obs(o):
         return {
-            "text": o.get_full_text(),
-            "units": [json.dumps(u.to_json(), sort_keys=True) for u in o.iterate_units()],
-            "tables": [json.dumps(t.get_table(), sort_keys=True, default=repr) for t in o.iterate_tables()],
+            "text": addr(o.get_full_text()),
+            "units": [addr(json.dumps(u.to_json(), sort_keys=True)) for u in o.iterate_units()],
+            "tables": [json.dumps(Proj().py(t.get_table()), sort_keys=True).replace('"pos": "mid"', '"pos": "start"')
+                       .replace('"pos": "end"', '"pos": "start"') for t in o.iterate_tables()],
             "bytes": [hashlib.sha1(im.get_bytes().getvalue()).hexdigest() for im in o.iterate_images()],
         }
     try:
